@@ -16,7 +16,7 @@ REQUIRED = [
     # general (all n)
     "pauli_mul_act", "commute_dichotomy", "multiply_row_spec", "multiply_row_panics_iff_anticommute",
     "multiply_row_no_assert_of_stabilizes", "row_ops_preserve_group", "normalize_sound",
-    "bits_get_set", "bits_sign_get_set",
+    "measure_deterministic_sound_partial", "bits_get_set", "bits_sign_get_set",
     # finite, kernel-checked (n <= 2)
     "enum_card", "enum_is_closure", "exhaustive_gates_n2", "exhaustive_measure_n2", "exhaustive_reset_partial_n2",
     "exhaustive_canonical_n2", "equal_states_identical_tableau_n2", "history_independent_n2",
@@ -132,13 +132,18 @@ def run(ctx):
         SPEC["spec_check"] = spec_parallel("drv_c03", jobs=8)
     vlib.standard_flow(ctx, SPEC)
     ctx.assumptions += [
-        "finite (kernel-checked, n <= 2 only): completeness of the enumeration is 'closure of |0..0> under H, S, CX' (6 and 60 states); "
-        "agreement of every gate / measure / collapse / reset with the exact state-vector result, the deterministic/random classification "
-        "and 'equal states => identical tableau' are proved for these states only; n = 3 (1080 states) and n = 4 (36720, thorough) are "
-        "covered by the compiled correspondence + spec evaluation, not by the kernel",
-        "reset_partial: reset of a random qubit that is entangled with the rest is excluded (known finding D4, witnessed by neg_reset_entangled_forced_zero)",
-        "peek_all on correlated random qubits is excluded (known finding D5, witnessed by neg_peek_all_independent)",
-        "not proved for general n: uniqueness of the canonical form, the converse of measure_deterministic (non-deterministic => 50/50), "
-        "apply_gate_stabilizes for arbitrary placements (the conjugation rules themselves are C06)",
-        "u64 words are modelled as Nat below 2^64; Vec<u64> indexing as list indexing",
+        "FINITE (kernel-checked, n <= 2 only; theorems suffixed _n2): the enumeration is the closure of |0..0> under H, S, CX (6 and 60 "
+        "states); agreement of every gate / measure / collapse / reset with the exact state-vector result, the deterministic/random "
+        "classification, canonical form, and 'equal states => identical tableau' (incl. history independence) are proved for these "
+        "states only.  n = 3 (1080 states) and n = 4 (36720, thorough) are covered by the compiled correspondence (A) + spec evaluation "
+        "(B) on the real code, not by the kernel (a kernel check of n = 3 was measured at > 2 CPU-hours and is not run)",
+        "exhaustive_reset_partial_n2: reset of a random qubit that is entangled with the rest is excluded (known finding D4-stab-reset-forced, "
+        "witnessed by neg_reset_entangled_forced_zero)",
+        "peek_all on correlated random qubits is excluded (known finding D5-stab-peek-all-independent, witnessed by neg_peek_all_independent)",
+        "measure_deterministic_sound_partial: proved for all n only from the hypothesis that the reported row is exactly +-Z_q; that a canonical "
+        "tableau without X/Y in column q has such a row, and that all other qubits are 50/50, is FINITE (n <= 2) + correspondence",
+        "NOT proved for general n: normalize output is in reduced echelon form / idempotent / unique (Canonical), apply_gate_stabilizes for "
+        "arbitrary placements (the conjugation rules themselves are C06), collapse/reset for general n",
+        "u64 words are modelled as Nat (frame laws bits_get_set / bits_sign_get_set do not need the 64-bit bound); Vec<u64> indexing as list indexing; "
+        "that the packed structure and the row model agree on whole tableaux is checked by (A) on the `words` requests (up to 70 qubits), not proved",
     ]
